@@ -34,6 +34,8 @@ def write_raster(path, data, dtype=None, crs=None, transform=None, descriptions=
 
     with warnings.catch_warnings():
         warnings.simplefilter("ignore")
+        if nodata is not None:
+            kw["nodata"] = nodata
         with rasterio.open(
             path, "w", driver="GTiff", height=data.shape[1], width=data.shape[2], count=data.shape[0], dtype=dtype, **kw
         ) as dst:
